@@ -65,6 +65,10 @@ func c19Err(err error) string {
 
 func c19RunJust[N uint32 | uint64](kv map[string]string, body string) string {
 	round, setID, off := c19U(kv["r"]), c19U(kv["s"]), c19U(kv["off"])
+	salt := uint64(0)
+	if kv["hs"] != "" {
+		salt = c19U(kv["hs"])
+	}
 	par := c19List(kv["t"])
 	n := uint64(len(par))
 
@@ -80,6 +84,7 @@ func c19RunJust[N uint32 | uint64](kv map[string]string, body string) string {
 		}
 		var sr [32]byte
 		sr[0], sr[1], sr[2] = byte(i+1), 0x19, 0xc1
+		sr[3], sr[4] = byte(salt), byte(salt>>8) // `hs=`: varies the hashes, hence their sort order
 		headers[i] = generic.NewHeader[N, hash.H256, runtime.BlakeTwo256](
 			N(off+depth[i]), hash.H256(""), hash.H256(sr[:]), parent, runtime.Digest{})
 		hashes[i] = headers[i].Hash()
